@@ -56,7 +56,7 @@ ASSUMPTIONS = [
 ]
 NSHARDS = {"quick": 16, "thorough": 16}
 TIMEOUT_S = {"quick": 240, "thorough": 1500}
-BUDGET_S = {"quick": 30, "thorough": 420}
+BUDGET_S = {"quick": 90, "thorough": 420}
 REQUIRE = {
     "server_closes_judged": 300,
     "hio_server_sockets_checked": 1500,
